@@ -23,6 +23,7 @@ import (
 	"sigs.k8s.io/cli-utils/pkg/apply/cache"
 	"sigs.k8s.io/cli-utils/pkg/apply/event"
 	"sigs.k8s.io/cli-utils/pkg/apply/taskrunner"
+	"sigs.k8s.io/cli-utils/pkg/inventory"
 	"sigs.k8s.io/cli-utils/pkg/kstatus/status"
 	"sigs.k8s.io/cli-utils/pkg/object"
 	"verifharness/emit"
@@ -148,6 +149,10 @@ type scenario struct {
 	cache0  []cacheEntry
 	inputs  []inputT
 	timeout time.Duration // > 0 iff inputs contains inTimeout
+	// viaRunner: the phase is run by the real TaskStatusRunner.Run loop fed by a
+	// scripted StatusWatcher (cache0 is delivered before the Sync event; a
+	// Timeout / Cancel can only be the last input)
+	viaRunner bool
 }
 
 type wev struct {
@@ -166,8 +171,9 @@ type result struct {
 	final     []finalT
 	completed bool
 	panicked  bool
-	discard   string // non-empty: the run is not comparable (harness was too slow for the real timer)
-	failure   string // hang / leak seen outside the compared observables
+	inputs    []inputT // runner stream: the inputs that were actually delivered (nil: all of the script)
+	discard   string   // non-empty: the run is not comparable (harness was too slow for the real timer)
+	failure   string   // hang / leak seen outside the compared observables
 }
 
 func uidStr(n uint64) types.UID {
@@ -229,13 +235,10 @@ const grace = 25 * time.Millisecond
 
 var missedCompletions int32
 
-// execute runs one scripted phase on the real WaitTask.
-func execute(sc *scenario) (res result) {
-	evCh := make(chan event.Event, 4096)
-	rc := cache.NewResourceCacheMap()
-	tc := taskrunner.NewTaskContext(evCh, rc)
-	im := tc.InventoryManager()
-	for _, r := range sc.table {
+// register records the actuation outcomes on the Manager, as the apply / prune
+// tasks that precede the wait phase would.
+func register(im *inventory.Manager, table []recT) {
+	for _, r := range table {
 		id := universe[r.id]
 		if r.viaAPI {
 			switch [2]int{r.strat, r.act} {
@@ -263,6 +266,33 @@ func execute(sc *scenario) (res result) {
 				Reconcile: actuation.ReconcileStatus(r.rec), UID: uidStr(r.uid), Generation: r.gen})
 		}
 	}
+}
+
+// readFinal reads the record of every id of the universe back from the Manager.
+func (sc *scenario) readFinal(im *inventory.Manager, res *result) {
+	for i := range universe {
+		st, found := im.ObjectStatus(universe[i])
+		f := finalT{id: i, found: found}
+		if found {
+			f.r = recT{id: i, strat: int(st.Strategy), act: int(st.Actuation), rec: int(st.Reconcile), uid: uidNum(st.UID), gen: st.Generation}
+			if st.ObjectReference != (actuation.ObjectReference{Group: universe[i].GroupKind.Group, Kind: universe[i].GroupKind.Kind, Name: universe[i].Name, Namespace: universe[i].Namespace}) {
+				f.r.id = 99
+			}
+		}
+		res.final = append(res.final, f)
+	}
+	if n := len(im.Inventory().Status.Objects); n != countDistinct(sc.table) {
+		res.failure = fmt.Sprintf("the table has %d records, %d were registered", n, countDistinct(sc.table))
+	}
+}
+
+// execute runs one scripted phase on the real WaitTask.
+func execute(sc *scenario) (res result) {
+	evCh := make(chan event.Event, 4096)
+	rc := cache.NewResourceCacheMap()
+	tc := taskrunner.NewTaskContext(evCh, rc)
+	im := tc.InventoryManager()
+	register(im, sc.table)
 	for _, ce := range sc.cache0 {
 		put(rc, ce.id, ce.o)
 	}
@@ -348,20 +378,7 @@ func execute(sc *scenario) (res result) {
 	if extra := drain(evCh); len(extra) > 0 {
 		res.failure = fmt.Sprintf("events after the run: %v", extra)
 	}
-	for i := range universe {
-		st, found := im.ObjectStatus(universe[i])
-		f := finalT{id: i, found: found}
-		if found {
-			f.r = recT{id: i, strat: int(st.Strategy), act: int(st.Actuation), rec: int(st.Reconcile), uid: uidNum(st.UID), gen: st.Generation}
-			if st.ObjectReference != (actuation.ObjectReference{Group: universe[i].GroupKind.Group, Kind: universe[i].GroupKind.Kind, Name: universe[i].Name, Namespace: universe[i].Namespace}) {
-				f.r.id = 99
-			}
-		}
-		res.final = append(res.final, f)
-	}
-	if n := len(im.Inventory().Status.Objects); n != countDistinct(sc.table) {
-		res.failure = fmt.Sprintf("the table has %d records, %d were registered", n, countDistinct(sc.table))
-	}
+	sc.readFinal(im, &res)
 	return res
 }
 
@@ -443,7 +460,11 @@ func (sc *scenario) render(res result) (term, text string) {
 
 	// text: the script with what each step emitted
 	var b strings.Builder
-	fmt.Fprintf(&b, "%s %s ids=%v table=[", sc.kind, cond, sc.ids)
+	via := ""
+	if sc.viaRunner {
+		via = " via=runner"
+	}
+	fmt.Fprintf(&b, "%s%s %s ids=%v table=[", sc.kind, via, cond, sc.ids)
 	for i, r := range sc.table {
 		if i > 0 {
 			b.WriteString(" ")
@@ -799,9 +820,9 @@ func Run(seed int64, tier, outDir string) (*emit.Summary, error) {
 	r := rand.New(rand.NewSource(seed))
 	sum := emit.NewSummary("C06", seed, tier)
 
-	depthOK, depthOther, nRand, nOdd := 3, 2, 900, 200
+	depthOK, depthOther, nRand, nOdd, nRunRand, nSame := 3, 2, 900, 200, 500, 500
 	if tier == "thorough" {
-		depthOK, depthOther, nRand, nOdd = 3, 3, 9000, 2000
+		depthOK, depthOther, nRand, nOdd, nRunRand, nSame = 3, 3, 9000, 2000, 5000, 5000
 	}
 	scs := corpus()
 	nCorpus := len(scs)
@@ -813,6 +834,20 @@ func Run(seed int64, tier, outDir string) (*emit.Summary, error) {
 	for i := 0; i < nOdd; i++ {
 		scs = append(scs, genRandom(r, true))
 	}
+	// second stream: through the real TaskStatusRunner.Run loop
+	nSync := len(scs)
+	scs = append(scs, runnerCorpus()...)
+	scs = append(scs, runnerExhaustive()...)
+	for i := 0; i < nRunRand; i++ {
+		sc := genRandom(r, i%5 == 4)
+		sc.kind = "runner:" + sc.kind
+		sc.viaRunner = true
+		endOnly(sc)
+		scs = append(scs, sc)
+	}
+	for i := 0; i < nSame; i++ {
+		scs = append(scs, genSameStatus(r))
+	}
 
 	// run: every phase has its own task, context, cache and channels
 	results := make([]result, len(scs))
@@ -823,9 +858,13 @@ func Run(seed int64, tier, outDir string) (*emit.Summary, error) {
 		go func() {
 			defer wg.Done()
 			for k := range work {
-				results[k] = execute(scs[k])
+				run := execute
+				if scs[k].viaRunner {
+					run = executeViaRunner
+				}
+				results[k] = run(scs[k])
 				if results[k].discard != "" { // the machine stalled around a real timer: once more
-					results[k] = execute(scs[k])
+					results[k] = run(scs[k])
 				}
 			}
 		}()
@@ -850,6 +889,9 @@ func Run(seed int64, tier, outDir string) (*emit.Summary, error) {
 	var nontr []bool
 	for k, sc := range scs {
 		res := results[k]
+		if res.inputs != nil { // the runner stream reports what was actually delivered
+			sc.inputs = res.inputs
+		}
 		if res.failure != "" {
 			_, text := sc.render(res)
 			sum.ImplFailures = append(sum.ImplFailures, res.failure+" in "+text)
@@ -879,6 +921,14 @@ func Run(seed int64, tier, outDir string) (*emit.Summary, error) {
 		if strings.HasPrefix(kind, "exh:") {
 			kind = "exhaustive"
 		}
+		if strings.HasPrefix(kind, "runner:corpus:") {
+			kind = "runner:corpus"
+		}
+		if sc.viaRunner {
+			sum.Count("stream:runner")
+		} else {
+			sum.Count("stream:direct")
+		}
 		sum.Count("phase:" + kind)
 		sum.Count([]string{"cond:AllCurrent", "cond:AllNotFound"}[sc.cond])
 		if res.completed {
@@ -907,13 +957,14 @@ func Run(seed int64, tier, outDir string) (*emit.Summary, error) {
 	sum.Exhaustive = false
 	sum.Extra["exhaustive_part"] = fmt.Sprintf("1 tracked id, every update sequence of length %d over a %d-symbol observation alphabet for a succeeded actuation, length %d for 8 other table records, both conditions, plus every (cached before start, one update) pair: %d phases", depthOK, len(alphabet(1)), depthOther, len(ex))
 	sum.Extra["corpus"] = nCorpus
-	sum.Rule = "a case = one scripted wait phase (condition, task ids, registered actuation records, cache before start, updates/cancel/timeout after start) run on the real WaitTask; " +
+	sum.Extra["runner_stream"] = fmt.Sprintf("%d phases delivered through the real TaskStatusRunner.Run loop by a scripted StatusWatcher (observations before the Sync event, unbuffered status channel, marker event after every update): the corpus, every pair of updates and every (before the phase, update) pair over the alphabet for 1 id, random phases, runs of equal-status observations that change only UID / generation / body", len(scs)-nSync)
+	sum.Rule = "a case = one scripted wait phase (condition, task ids, registered actuation records, cache before start, updates/cancel/timeout after start) run on the real WaitTask, either by calling cache.Put + StatusUpdate directly or through the real TaskStatusRunner.Run loop; " +
 		"non-trivial = at least one wait event after Start; distinct = distinct Coq case terms (inputs and observations)"
 	pick := func(k int) any {
 		_, text := scs[k].render(results[k])
 		return text
 	}
-	sum.Samples = []any{pick(0), pick(nCorpus + len(ex) + 1), pick(len(scs) - 1)}
+	sum.Samples = []any{pick(0), pick(nCorpus + len(ex) + 1), pick(nSync + 12), pick(len(scs) - 1)}
 	return sum, nil
 }
 
